@@ -25,7 +25,10 @@ def run(cmd, cwd=None, env=None, timeout=1800):
 
 def main():
     out, name = sys.argv[1], sys.argv[2]
-    prop = re.search(r"ID: (C\d+)", open(os.path.join(out, "PROPERTY.txt")).read()).group(1)
+    pf = os.path.join(out, "PROPERTY.txt")
+    if not os.path.exists(pf):
+        pf = os.path.join(os.path.dirname(out.rstrip("/")), "PROPERTY.txt")
+    prop = re.search(r"ID: (C\d+)", open(pf).read()).group(1)
     patch = os.path.join(out, "patch.diff")
     demos = glob.glob(os.path.join(out, "demo_*.rs"))
     meta = {"name": name, "breaks_property": prop, "source": "independent sub-agent given only the property text and a scratch worktree"}
